@@ -88,6 +88,12 @@ M = [
  ("c20-stale-boundaries-on-short-line", ["C20"], "predict/src/main.rs",
   "                s_orig.boundaries_mut().copy_from_slice(s.boundaries());",
   "                if s.boundaries().len() > 1 {\n                    s_orig.boundaries_mut().copy_from_slice(s.boundaries());\n                }"),
+ ("c08-thread-atomic-len-two-sites", ["C08"], "vaporetto/src/predictor.rs",
+  "        sentence.score_padding = WEIGHT_FIXED_LEN - 1;\n        sentence.boundary_scores.clear();\n        sentence.boundary_scores.resize(\n            sentence.score_padding * 2 + sentence.len() - 1,\n            self.data.bias,\n        );",
+  "        static LAST_LEN: core::sync::atomic::AtomicUsize = core::sync::atomic::AtomicUsize::new(0);\n        LAST_LEN.store(sentence.len(), core::sync::atomic::Ordering::SeqCst);\n        sentence.score_padding = WEIGHT_FIXED_LEN - 1;\n        sentence.boundary_scores.clear();\n        sentence.boundary_scores.resize(\n            sentence.score_padding * 2 + LAST_LEN.load(core::sync::atomic::Ordering::SeqCst) - 1,\n            self.data.bias,\n        );"),
+ ("c08-thread-unsynchronised-scratch", ["C08"], "vaporetto/src/predictor.rs",
+  "        sentence.score_padding = WEIGHT_FIXED_LEN - 1;\n        sentence.boundary_scores.clear();\n        sentence.boundary_scores.resize(\n            sentence.score_padding * 2 + sentence.len() - 1,\n            self.data.bias,\n        );",
+  "        struct Scratch(core::cell::UnsafeCell<usize>);\n        unsafe impl Sync for Scratch {}\n        static SCRATCH: Scratch = Scratch(core::cell::UnsafeCell::new(0));\n        unsafe { *SCRATCH.0.get() = sentence.len() };\n        sentence.score_padding = WEIGHT_FIXED_LEN - 1;\n        sentence.boundary_scores.clear();\n        sentence.boundary_scores.resize(\n            sentence.score_padding * 2 + unsafe { *SCRATCH.0.get() } - 1,\n            self.data.bias,\n        );"),
 ]
 
 def main():
